@@ -35,7 +35,8 @@ META = {
                 'D4 exhaustive aggregation / continuing lookup',
                 'D5 one storage key, accessors use the descriptor; the '
                 'declaration (access, emits) bound to a property is the one '
-                'of ITS interface'],
+                'of ITS interface; the value storage of an object is created only if absent',
+                'D3 also: the per-class tables are read through the class\'s own __dict__'],
     'undecided': ['value histories over local and remote assignments',
                   'descriptor state shared across instances'],
 }
@@ -100,6 +101,64 @@ def feasible(cond, access_term, value):
         if tv != pol:
             return False
     return True
+
+
+def storage_created_once(ctx):
+    """The values of an object's properties live in one dict on the instance
+    (created lazily by the descriptor).  Any statement that binds that
+    attribute to a fresh container must be guarded by a test that it does not
+    exist yet: an unconditional `self._dbusProperties = {}` (in a constructor
+    that may run after the first assignment, or twice under multiple
+    inheritance) throws the assigned values away - Get then answers None."""
+    prog = ctx.prog
+    # the storage attribute: what DBusProperty.__set__ subscripts
+    setter = prog.func('objects.DBusProperty.__set__')
+    attrs = {n.value.attr for n in ast.walk(setter.node)
+             if isinstance(n, ast.Subscript) and
+             isinstance(n.ctx, ast.Store) and
+             isinstance(n.value, ast.Attribute)}
+    if len(attrs) != 1:
+        raise AnalysisError('DBusProperty.__set__: storage attribute not '
+                            'recognised (%s)' % sorted(attrs))
+    store = next(iter(attrs))
+    n = 0
+    for fi in prog.all_funcs.values():
+        if fi.module.name != 'objects':
+            continue
+
+        def walk(node, guarded):
+            nonlocal n
+            if isinstance(node, ast.If):
+                g = guarded or any(
+                    (isinstance(c, ast.Call) and
+                     isinstance(c.func, ast.Name) and
+                     c.func.id == 'hasattr' and len(c.args) == 2 and
+                     isinstance(c.args[1], ast.Constant) and
+                     c.args[1].value == store) or
+                    (isinstance(c, ast.Attribute) and c.attr == store)
+                    for c in ast.walk(node.test))
+                for st in node.body:
+                    walk(st, g)
+                for st in node.orelse:
+                    walk(st, g)
+                return
+            if isinstance(node, ast.Assign):
+                for t in node.targets:
+                    if isinstance(t, ast.Attribute) and t.attr == store:
+                        n += 1
+                        ctx.ob('C17.D5', fi.qualname,
+                               'storage-created-only-if-absent', guarded,
+                               '%s binds .%s to a fresh container without '
+                               'testing that it is absent: property values '
+                               'assigned before this statement runs are '
+                               'lost (Get answers None, the first export '
+                               'cannot marshal them)' % (fi.qualname, store))
+            for ch in ast.iter_child_nodes(node):
+                walk(ch, guarded)
+        walk(fi.node, False)
+    if n == 0:
+        ctx.ob('C17.D5', 'objects.DBusProperty', 'storage-created-only-if-'
+               'absent', False, 'the storage dict is never created')
 
 
 def declaration_binding(ctx):
@@ -326,6 +385,11 @@ def run(ctx):
     # D2 / D5 descriptor -------------------------------------------------------------
     descriptor_rules(ctx, emits)
     declaration_binding(ctx)
+    storage_created_once(ctx)
+    from .common import class_memo_not_inherited
+    class_memo_not_inherited(
+        ctx, 'C17.D3', ('objects',),
+        'the properties a subclass declares are not found')
     ctx.floor('C17.D1', 12)
     ctx.floor('C17.D2', 3)
     ctx.floor('C17.D3', 2)
